@@ -18,6 +18,15 @@ def run(tier, seed):
     ok = "Invariant Bounded is violated" in out2 or "Invariant Accepted is violated" in out2
     rep.extra["negative_control_without_renormalisation_violates_invariant"] = ok
     if not ok: raise vlib.ModelError("negative control failed: NormDrift without renormalisation not rejected")
+    # the same bound as an INDUCTIVE invariant, discharged symbolically by Apalache (Init => Bounded; Bounded /\ Next => Bounded')
+    wd0 = vlib.workdir("C08apalache")
+    ok_ind = []
+    for args in (["--init=Init", "--inv=Bounded", "--length=0"], ["--init=IndInit", "--inv=Bounded", "--length=1"]):
+        r = vlib.sh(["timeout", "600", "apalache-mc", "check", "--out-dir=" + wd0, "--run-dir=" + os.path.join(wd0, "run")] + args + [os.path.join(vlib.SPEC, "NormDriftInd.tla")], cwd=wd0)
+        if "EXITCODE: OK" in r.stdout: ok_ind.append(True)
+        elif "EXITCODE: ERROR (12)" in r.stdout or "violat" in r.stdout.lower(): raise vlib.ModelError("Apalache: Bounded is not inductive:\n" + r.stdout[-1500:])
+        else: ok_ind.append(False)     # tool unavailable / timed out: the TLC fixpoint above already covers the claim
+    rep.extra["apalache_inductive_invariant_discharged"] = all(ok_ind) and len(ok_ind) == 2
     keys = KEYS if tier == "thorough" else KEYS[:7]
     steps = 5000 if tier == "quick" else 150000
     full = 400 if tier == "quick" else 2500
